@@ -5,6 +5,8 @@ package main
 
 import (
 	"bytes"
+	"fmt"
+	"sort"
 	"context"
 	"encoding/json"
 	"os"
@@ -48,15 +50,15 @@ func writeReplay(o *Options, ob *Obligation) replayResult {
 		})
 	}
 	res := replayResult{path: filepath.Join(dir, o.prop+"-"+sane(ob.Name)+".json")}
-	if model != "" {
-		if rp := replayOnRealCode(o, ob, model); rp != nil {
-			rf.Replay = rp
-			if v, _ := rp["reproduced"].(bool); v {
-				res.reproduced = true
-			}
+	if rp := replayOnRealCode(o, ob, model); rp != nil {
+		rf.Replay = rp
+		if v, _ := rp["reproduced"].(bool); v {
+			res.reproduced = true
 		}
 	}
-	if res.reproduced {
+	if res.reproduced && model == "" {
+		rf.Note = "the solver gave no model (unknown / timeout); a small-scope search over inputs of the real function found an input on which the property-level oracle fails (see replay_on_real_code)"
+	} else if res.reproduced {
 		rf.Note = "the solver's counterexample was replayed against the real code and the property-level oracle failed"
 	} else {
 		rf.Note = "failed obligation; no failing input was reproduced on the real code (no model, no replay template, or the model is not a reachable state)"
@@ -182,6 +184,130 @@ func goValue(w *World, v *sexp) interface{} {
 
 var theWorld *World
 
+// observedArgs turns the values of the observation terms (get-value output after the marker
+// OBSERVED) into Go literals for the integer-slice and integer-map parameters:
+// data["<param>_go"] = "[]uint{3, 2, 1}" / "map[uint]uint{3: 1}" / "nil".
+func observedArgs(q *Query, model string) map[string]interface{} {
+	out := map[string]interface{}{}
+	i := strings.Index(model, "OBSERVED")
+	if i < 0 {
+		return out
+	}
+	rest := model[i+len("OBSERVED"):]
+	j := strings.Index(rest, "(")
+	if j < 0 {
+		return out
+	}
+	ss := parseSexps(rest[j:])
+	if len(ss) == 0 || ss[0].list == nil {
+		return out
+	}
+	val := map[string]string{} // term text -> value
+	for _, pr := range ss[0].list {
+		if pr.list == nil || len(pr.list) != 2 {
+			continue
+		}
+		v := pr.list[1]
+		s := v.atom
+		if v.list != nil && len(v.list) == 2 && v.list[0].atom == "-" {
+			s = "-" + v.list[1].atom
+		}
+		val[sexpText(pr.list[0])] = s
+	}
+	get := func(name string) (string, bool) {
+		for _, o := range q.Observe {
+			if o.Name == name {
+				v, ok := val[sexpText(parseSexps(o.Term)[0])]
+				return v, ok
+			}
+		}
+		return "", false
+	}
+	elems := map[string][]string{}
+	for _, o := range q.Observe {
+		if !strings.HasSuffix(o.Name, "#len") {
+			continue
+		}
+		p := strings.TrimSuffix(o.Name, "#len")
+		ln, ok := get(o.Name)
+		if !ok {
+			continue
+		}
+		n := 0
+		fmt.Sscan(ln, &n)
+		if n < 0 || n > obsMax {
+			out[p+"_go"] = "nil /* length " + ln + " not representable in the replay */"
+			out[p+"_toolong"] = true
+			continue
+		}
+		var es []string
+		for k := 0; k < n; k++ {
+			v, ok := get(fmt.Sprintf("%s#%d", p, k))
+			if !ok {
+				v = fmt.Sprint(k + 1) // unconstrained in the query: any value fits
+			}
+			es = append(es, v)
+		}
+		elems[p] = es
+		if isnil, _ := get(p + "#nil"); isnil == "true" && n == 0 {
+			out[p+"_go"] = "nil"
+		} else {
+			out[p+"_go"] = "{" + strings.Join(es, ", ") + "}"
+		}
+	}
+	for _, o := range q.Observe {
+		if !strings.HasSuffix(o.Name, "#nil") || strings.Contains(o.Name, "@") {
+			continue
+		}
+		m := strings.TrimSuffix(o.Name, "#nil")
+		if _, isSlice := elems[m]; isSlice {
+			continue
+		}
+		if _, has := out[m+"_go"]; has {
+			continue
+		}
+		isMap := false
+		for _, o2 := range q.Observe {
+			if strings.HasPrefix(o2.Name, m+"@") {
+				isMap = true
+			}
+		}
+		if !isMap {
+			continue
+		}
+		if isnil, _ := get(o.Name); isnil == "true" {
+			out[m+"_go"] = "nil"
+			continue
+		}
+		var ents []string
+		seen := map[string]bool{}
+		for sn, es := range elems {
+			for k, key := range es {
+				d, _ := get(fmt.Sprintf("%s@%s#%d#dom", m, sn, k))
+				v, ok := get(fmt.Sprintf("%s@%s#%d#val", m, sn, k))
+				if d == "true" && ok && !seen[key] {
+					seen[key] = true
+					ents = append(ents, key+": "+v)
+				}
+			}
+		}
+		sort.Strings(ents)
+		out[m+"_go"] = "{" + strings.Join(ents, ", ") + "}"
+	}
+	return out
+}
+
+func sexpText(n *sexp) string {
+	if n.list == nil {
+		return n.atom
+	}
+	var p []string
+	for _, c := range n.list {
+		p = append(p, sexpText(c))
+	}
+	return "(" + strings.Join(p, " ") + ")"
+}
+
 // replayOnRealCode instantiates the replay template of the obligation's function with the
 // model's parameter values and runs it as an in-package test through go test -overlay.
 func replayOnRealCode(o *Options, ob *Obligation, model string) map[string]interface{} {
@@ -197,8 +323,13 @@ func replayOnRealCode(o *Options, ob *Obligation, model string) map[string]inter
 			break
 		}
 	}
-	if q == nil {
-		return nil
+	search := q == nil || model == ""
+	if search {
+		// no model: only templates that can search for a failing input themselves are of use
+		if !strings.Contains(string(tb), "small-scope search") || len(ob.Queries) == 0 {
+			return nil
+		}
+		q = &Query{}
 	}
 	vals := modelValues(model)
 	data := map[string]interface{}{}
@@ -215,6 +346,10 @@ func replayOnRealCode(o *Options, ob *Obligation, model string) map[string]inter
 		}
 		data[name] = gv
 		inputs[name] = gv
+	}
+	for k, v := range observedArgs(q, model) {
+		data[k] = v
+		inputs[k] = v
 	}
 	data["Property"] = o.prop
 	data["Obligation"] = ob.Name
@@ -237,8 +372,11 @@ func replayOnRealCode(o *Options, ob *Obligation, model string) map[string]inter
 	store := filepath.Join(o.verif, "replays", o.prop+"-"+sane(ob.Name)+"_test.go.txt")
 	_ = os.WriteFile(store, buf.Bytes(), 0o644)
 	out, failed := runOverlayTest(modDir, rel, buf.Bytes())
-	return map[string]interface{}{"reproduced": failed, "inputs": inputs, "test_source": store, "go_test_output": clip(out, 4000),
-		"how": "go test -overlay (in-package test injected without writing to /repo), -run TestVerifReplay"}
+	how := "the model's arguments, go test -overlay (in-package test injected without writing to /repo), -run TestVerifReplay"
+	if search {
+		how = "small-scope search for a failing input (the solver gave no model), go test -overlay, -run TestVerifReplay"
+	}
+	return map[string]interface{}{"reproduced": failed, "inputs": inputs, "test_source": store, "go_test_output": clip(out, 4000), "how": how}
 }
 
 func runOverlayTest(modDir, rel string, src []byte) (string, bool) {
